@@ -109,7 +109,7 @@ package native
 //@ pure func corrSpec(s text, r text) text
 //@ pure func fixSeg(s string, a int, b int, vt ints, i int, n int, r text) text = ite(i >= n, subtxt(s, a, b - a), tcat(tcat(subtxt(s, a, vt[i] - a), r), fixSeg(s, vt[i] + 1, b, vt, i + 1, n, r)))
 //@ func ValidateUTF8 assumed "native validate_utf8 (pre-assembled machine code)"
-//@   requires s != nil && p != nil && m != nil && 0 <= *p && *p <= len(*s) && m.Sp == 0
+//@   requires s != nil && p != nil && m != nil && 0 <= *p && *p < len(*s) && m.Sp == 0
 //@   modifies *p, m.Sp, m.Vt
 //@   ensures old(*p) <= *p && *p <= len(*s) && 0 <= m.Sp && m.Sp <= types.MAX_RECURSE && m.Sp <= *p - old(*p)
 //@   ensures ret == 0 ==> *p == len(*s)
